@@ -13,7 +13,9 @@ use vrp_core::solver::processing::{ClusterConfigExtraProperty, ReservedTimesExtr
 
 pub(super) fn map_to_problem_with_approx(problem: ApiProblem) -> Result<CoreProblem, MultiFormatError> {
     let coord_index = CoordIndex::new(&problem);
-    let matrices = if coord_index.has_indices() { vec![] } else { create_approx_matrices(&problem) };
+    // NOTE routing cannot be approximated without profiles, let validation report them missing (E1501)
+    let has_no_approx = coord_index.has_indices() || problem.fleet.profiles.is_empty();
+    let matrices = if has_no_approx { vec![] } else { create_approx_matrices(&problem) };
     map_to_problem(problem, matrices, coord_index)
 }
 
